@@ -18,7 +18,7 @@ PROPS["C20"] = {
                "matcher options incl. sub/substr, cache/dropRaw/interval/wait symbolic), rewriter (old 1..2, new/not 0..2 symbolic bytes, max -1..1000, regex forms concrete), "
                "carbon routes (3 types, sub/substr 0..1 symbolic bytes, 2-3 destinations with symbolic-digit options), grafanaNet (12 presence masks of the 8 numeric "
                "options with symbolic values, 5 boolean/metadata patterns with 3 casings); section == command for blacklist, aggregation, rewriter, carbon and grafanaNet routes on concrete "
-               "strings with symbolic-digit numbers"),
+               "strings with symbolic-digit numbers; one whole configuration (init command, blacklist line, aggregation, rewriter, carbon route) through InitTable, with any one of the five parts broken or none"),
     "outside": ("decoding of TOML text into cfg.Config and toml.MetaData by BurntSushi/toml (key spelling/casing: the decoded value is the harness input); "
                 "toki lexing of symbolic text (command strings are concrete except for the digits of numeric values); "
                 "route.NewGrafanaNet, getSchemas and ReadAggregations (files, HTTP workers): the check stops at the route.GrafanaNetConfig object (Go models in harness/route/c20.go, harness/mtconf/c20.go; "
@@ -68,6 +68,7 @@ PROPS["C20"] = {
             spec("C20/section/grafanaNet", "VerifC20GrafanaNetSection"),
             spec("C20/equiv/grafanaNet", "VerifC20GrafanaNetEquiv"),
             spec("C20/section/init-cmds", "VerifC20InitCmds"),
+            spec("C20/section/whole-config", "VerifC20WholeConfig"),
         ]},
     ],
 }
